@@ -4,6 +4,7 @@ from hypothesis import strategies as st
 from vgv import gen, model as M, obsutil
 from vgv import prelude
 from vgv.framework import Check, guarded
+from vgv.objs import HEADINGS
 
 RULE = ('non-trivial = quarter turn q != 0 with a non-square grid or an asymmetric area, and at least one non-floor object in view; '
         'distinct by (state, q, area, function).')
@@ -67,3 +68,76 @@ CHECKS = [
           rule='generated state x every quarter turn x area x {fully_transparent, partially_occluded, raytracing}: observation of the coordinate-rotated world == observation of the original',
           required=['nonsquare_grid', 'asymmetric_area', 'second_observation', 'view==grid', 'f:raytracing', 'f:partially_occluded', 'heading:L', 'heading:B', 'heading:R', 'heading:F', 'huge_view']),
 ]
+
+
+# ------------------------------------------------------------------ the same pose sweep in a very wide world and in its three rotations
+
+SWEEP_LENGTHS = {'quick': [1100], 'thorough': [1100, 4100, 65600]}
+
+
+def enum_pose_sweep(tier, shard, nshards):
+    i = 0
+    for L in SWEEP_LENGTHS[tier]:
+        for f in ('fully_transparent', 'partially_occluded'):
+            for hd in HEADINGS:
+                i += 1
+                if i % nshards == shard:
+                    yield {'L': L, 'f': f, 'heading': hd}
+
+
+def oracle_pose_sweep(case, ctx):
+    """a world of 2 x L cells with a sparse pattern of distinguishable objects, and the same world turned by one, two and three quarter
+    turns (built once): the agent is put on many cells in turn (the beginning of both rows, cells around every power of two, the far end),
+    in place, in all four worlds at the corresponding pose; the four observations must be the same.  Anything remembered per pose must be
+    remembered under the right pose, however far out."""
+    from gym_gridverse.geometry import Position
+    from vgv import objs
+    L, f, hd = case['L'], case['f'], case['heading']
+    h, w = 2, L
+    cell = lambda y, x: ['F', 'F', 'F', 'W', 'F', 'K:RED', 'F', 'F', 'E:NONE', 'F', 'F'][(x * 5 + y * 3) % 11]  # noqa: E731
+    base = {'grid': [[cell(y, x) for x in range(w)] for y in range(h)], 'agent': [0, 0, hd, '_']}
+    worlds = []
+    d = base
+    for k in range(4):
+        worlds.append(objs.build_state(d))
+        if k < 3:
+            # one clockwise quarter turn: (y, x) of an H x W grid -> (x, H-1-y); built directly (a deep copy per turn of 130,000 cells is slow)
+            H, W = len(d['grid']), len(d['grid'][0])
+            new = [[None] * H for _ in range(W)]
+            for y in range(H):
+                row = d['grid'][y]
+                for x in range(W):
+                    new[x][H - 1 - y] = row[x]
+            d = {'grid': new, 'agent': [0, 0, M.turn(d['agent'][2], 1), '_']}
+    xs = set(range(0, 40)) | set(range(w - 40, w))
+    p2 = 64
+    while p2 < w:
+        xs |= set(range(max(0, p2 - 3), min(w, p2 + 4)))
+        p2 *= 2
+    xs |= set(range(0, w, max(1, w // 400)))
+    area = [[-1, 0], [-1, 1]]
+    n = 0
+    for y in range(h):
+        for x in sorted(xs):
+            if M.blocks_movement(cell(y, x)):
+                continue
+            obs_ = []
+            py, px, H, W, heading = y, x, h, w, hd
+            for k in range(4):
+                S = worlds[k]
+                S.agent.position = Position(py, px)
+                S.agent.orientation = objs.ori(heading)
+                obs_.append(guarded(ctx, f'observation {f}', obsutil.observe, f, S, area))
+                py, px, H, W, heading = px, H - 1 - py, W, H, M.turn(heading, 1)
+            n += 1
+            if any(o != obs_[0] for o in obs_[1:]):
+                k = next(i for i, o in enumerate(obs_) if o != obs_[0])
+                ctx.fail(f'{f}: in a {h}x{w} world the observation from {(y, x)} heading {hd} changes when the world is turned by {k} quarter turn(s): '
+                         f'{["".join(c[0] for c in r) for r in obs_[0]["grid"]]} vs {["".join(c[0] for c in r) for r in obs_[k]["grid"]]}', {'kind': 'egocentric', 'f': f, 'aspect': 'pose_sweep'})
+    ctx.ev.case(case, nt=True, classes=[f'length:{L}', 'f:' + f])
+    ctx.ev.count('poses_swept', n)
+
+
+CHECKS.append(Check('pose_sweep', oracle_pose_sweep, enumerate=enum_pose_sweep, shards={'quick': 8, 'thorough': 16}, exhaustive=True,
+                    rule='a 2 x L world (L = 1100; thorough also 4100 and 65600) and its three rotations, built once; the agent put in place on the first and last 40 columns, around every power of two and on 400 evenly spaced columns x 4 headings x 2 observation functions: the four observations agree',
+                    required=['length:1100']))
